@@ -182,7 +182,9 @@ def ob_extract(ex, kind, variables, perturb=False):
     def rec_print(*a, **k):
         printed.append(a)
     req = st.Req(y)
-    with patched(ex, load_data=load_data, print=rec_print), _Swap(pandas=spd, numpy=snp):
+    # the callback imports pandas / numpy locally today; a module-level import would bind them as module globals instead
+    mods = {k: v for k, v in (("pandas", spd), ("numpy", snp)) if k in ex.__dict__}
+    with patched(ex, load_data=load_data, print=rec_print, **mods), _Swap(pandas=spd, numpy=snp):
         ex.main.callback(variables=",".join(variables), hide_header=False, temperature=req if kind == "T" else None, pressure=req if kind == "P" else None)
     if len(printed) != 1 or len(printed[0]) != 1 or not (isinstance(printed[0][0], tuple) and printed[0][0][0] == "TABLE"):
         return core.refuted("callsite", "the command prints %r instead of one table" % (printed,), witness_id="print")
@@ -262,8 +264,10 @@ def ob_geotherm(geo, variables):
     import scipy.interpolate as real_si
     fake_si = types.ModuleType("scipy.interpolate")
     fake_si.RectBivariateSpline = Spline
-    with patched(geo, load_data=load_data, print=lambda *a, **k: printed.append(a)), \
-            _Swap(pandas=types.SimpleNamespace(read_table=read_table), numpy=SymNumpy(), **{"scipy.interpolate": fake_si}):
+    spd, snp = types.SimpleNamespace(read_table=read_table), SymNumpy()
+    mods = {k: v for k, v in (("pandas", spd), ("numpy", snp), ("RectBivariateSpline", Spline)) if k in geo.__dict__}
+    with patched(geo, load_data=load_data, print=lambda *a, **k: printed.append(a), **mods), \
+            _Swap(pandas=spd, numpy=snp, **{"scipy.interpolate": fake_si}):
         import scipy
         old = scipy.interpolate
         scipy.interpolate = fake_si
